@@ -2,6 +2,8 @@
 From WC Require Import Str WcParse Escape.
 From WC.Gen Require Import Consts FlagFuns.
 From WC.Proofs Require Import C09Lemmas C09Parse.
+(* the committed snapshot of the regex source texts (magic sets, drive, tilde and anchor regexes) the escape and drive-scanner models were written for; a changed text breaks this import *)
+From WC.Proofs Require Pinned_wcparse.
 Import Mwcparse.
 Open Scope Z_scope.
 
